@@ -319,76 +319,76 @@ example : ∃ s, run (init 0)
 theorem code_matches_model :
     Gen.Listener.serve =
       ["ip := l.cfg.GetAddress().GetIp()",
-       "port := l.cfg.GetAddress().GetPort()",
-       "address := fmt.Sprintf(\"%s:%d\", ip, port)",
-       "l.mu.Lock()",
-       "l.started = true",
-       "l.mu.Unlock()",
-       "defer close(l.done)",
-       "verifPause(\"listener.serve.enter\", l)",
-       "var ln net.Listener",
-       "for { select { case <-l.quit: return nil case <-l.drain: return nil default: } var err error ln, err = defaultListenFunc(\"tcp\", address) if err == nil { break } l.Warnf(\"listen on %s failed: %v, will keep trying...\", address, err) t := time.NewTimer(time.Millisecond * 500) select { case <-t.C: case <-l.drain: return nil case <-l.quit: return nil } }",
-       "verifPause(\"listener.bound\", l)",
-       "l.mu.Lock()",
-       "l.ln = ln",
-       "l.mu.Unlock()",
-       "select { case <-l.quit: ln.Close() case <-l.drain: ln.Close() default: }",
-       "l.Infof(\"start serving at %s\", ln.Addr().String())",
-       "l.serve()",
-       "l.Infof(\"stop serving at %s, waiting all conns done\", ln.Addr().String())",
-       "l.connsWg.Wait()",
-       "l.Infof(\"all conns done\")",
-       "return nil"] ∧
+      "port := l.cfg.GetAddress().GetPort()",
+      "address := fmt.Sprintf(\"%s:%d\", ip, port)",
+      "l.mu.Lock()",
+      "l.started = true",
+      "l.mu.Unlock()",
+      "defer close(l.done)",
+      "verifPause(\"listener.serve.enter\", l)",
+      "var ln net.Listener",
+      "for { select { case <-l.quit: return nil case <-l.drain: return nil default: } var err error ln, err = defaultListenFunc(\"tcp\", address) if err == nil { break } l.Warnf(\"listen on %s failed: %v, will keep trying...\", address, err) t := time.NewTimer(time.Millisecond * 500) select { case <-t.C: case <-l.drain: return nil case <-l.quit: return nil } }",
+      "verifPause(\"listener.bound\", l)",
+      "l.mu.Lock()",
+      "l.ln = ln",
+      "l.mu.Unlock()",
+      "select { case <-l.quit: ln.Close() case <-l.drain: ln.Close() default: }",
+      "l.Infof(\"start serving at %s\", ln.Addr().String())",
+      "l.serve()",
+      "l.Infof(\"stop serving at %s, waiting all conns done\", ln.Addr().String())",
+      "l.connsWg.Wait()",
+      "l.Infof(\"all conns done\")",
+      "return nil"] ∧
     Gen.Listener.acceptLoop =
       ["var tempDelay time.Duration",
-       "for { conn, err := l.ln.Accept() if err != nil { if nerr, ok := err.(net.Error); ok && nerr.Temporary() { if tempDelay == 0 { tempDelay = 5 * time.Millisecond } else { tempDelay *= 2 } if max := 1 * time.Second; tempDelay > max { tempDelay = max } l.Warnf(\"accept failed: %v; retrying in %s\", err, tempDelay) timer := time.NewTimer(tempDelay) select { case <-timer.C: case <-l.quit: timer.Stop() return } continue } select { case <-l.drain: return case <-l.quit: return default: } l.Warnf(\"done serving; accept failed: %v\", err) return } l.connsWg.Add(1) go func(conn net.Conn) { l.handleRawConn(conn) l.connsWg.Done() }(conn) }"] ∧
+      "for { conn, err := l.ln.Accept() if err != nil { if nerr, ok := err.(net.Error); ok && nerr.Temporary() { if tempDelay == 0 { tempDelay = 5 * time.Millisecond } else { tempDelay *= 2 } if max := 1 * time.Second; tempDelay > max { tempDelay = max } l.Warnf(\"accept failed: %v; retrying in %s\", err, tempDelay) timer := time.NewTimer(tempDelay) select { case <-timer.C: case <-l.quit: timer.Stop() return } continue } select { case <-l.drain: return case <-l.quit: return default: } l.Warnf(\"done serving; accept failed: %v\", err) return } l.connsWg.Add(1) go func(conn net.Conn) { l.handleRawConn(conn) l.connsWg.Done() }(conn) }"] ∧
     Gen.Listener.handleRawConn =
       ["conn := l.wrapRawConn(rawConn)",
-       "connCreatedAt := time.Now()",
-       "if !l.addConn(conn) { conn.Close() return }",
-       "l.Debugf(\"%s -> %s created\", conn.RemoteAddr(), l.ln.Addr().String())",
-       "defer func() { conn.Close() l.removeConn(conn) l.Debugf(\"%s -> %s finished, duration: %s\", conn.RemoteAddr(), l.ln.Addr().String(), time.Since(connCreatedAt).String()) }()",
-       "if l.connHandleFn == nil { l.Warnf(\"conn handle fn is nil, will close conn immediately\") return }",
-       "l.connHandleFn(conn)"] ∧
+      "connCreatedAt := time.Now()",
+      "if !l.addConn(conn) { conn.Close() return }",
+      "l.Debugf(\"%s -> %s created\", conn.RemoteAddr(), l.ln.Addr().String())",
+      "defer func() { conn.Close() l.removeConn(conn) l.Debugf(\"%s -> %s finished, duration: %s\", conn.RemoteAddr(), l.ln.Addr().String(), time.Since(connCreatedAt).String()) }()",
+      "if l.connHandleFn == nil { l.Warnf(\"conn handle fn is nil, will close conn immediately\") return }",
+      "l.connHandleFn(conn)"] ∧
     Gen.Listener.addConn =
       ["l.mu.Lock()",
-       "defer l.mu.Unlock()",
-       "if l.conns == nil { return false }",
-       "if l.connsLimit() { l.stats.CxRestricted.Inc() l.Warnf(\"connections limit, %s -> %s, will close\", conn.RemoteAddr().String(), l.ln.Addr().String()) return false }",
-       "l.conns[conn] = struct{}{}",
-       "l.stats.CxTotal.Inc()",
-       "l.stats.CxActive.Inc()",
-       "return true"] ∧
+      "defer l.mu.Unlock()",
+      "if l.conns == nil { return false }",
+      "if l.connsLimit() { l.stats.CxRestricted.Inc() l.Warnf(\"connections limit, %s -> %s, will close\", conn.RemoteAddr().String(), l.ln.Addr().String()) return false }",
+      "l.conns[conn] = struct{}{}",
+      "l.stats.CxTotal.Inc()",
+      "l.stats.CxActive.Inc()",
+      "return true"] ∧
     Gen.Listener.removeConn =
       ["l.mu.Lock()",
-       "defer l.mu.Unlock()",
-       "if l.conns == nil { return }",
-       "if _, ok := l.conns[conn]; !ok { return }",
-       "delete(l.conns, conn)",
-       "l.stats.CxDestroyTotal.Inc()",
-       "l.stats.CxActive.Dec()"] ∧
+      "defer l.mu.Unlock()",
+      "if l.conns == nil { return }",
+      "if _, ok := l.conns[conn]; !ok { return }",
+      "delete(l.conns, conn)",
+      "l.stats.CxDestroyTotal.Inc()",
+      "l.stats.CxActive.Dec()"] ∧
     Gen.Listener.connsLimit =
       ["limit := l.cfg.ConnectionLimit",
-       "if limit == 0 || uint32(len(l.conns)) < limit { return false }",
-       "return true"] ∧
+      "if limit == 0 || uint32(len(l.conns)) < limit { return false }",
+      "return true"] ∧
     Gen.Listener.drain =
       ["l.drainOnce.Do(func() { close(l.drain) })",
-       "if ln := l.published(); ln != nil { ln.Close() }",
-       "return nil"] ∧
+      "if ln := l.published(); ln != nil { ln.Close() }",
+      "return nil"] ∧
     Gen.Listener.stop =
       ["l.quitOnce.Do(func() { close(l.quit) })",
-       "l.mu.Lock()",
-       "started := l.started",
-       "conns := l.conns",
-       "l.conns = nil",
-       "ln := l.ln",
-       "for range conns { l.stats.CxDestroyTotal.Inc() l.stats.CxActive.Dec() }",
-       "l.mu.Unlock()",
-       "verifPause(\"listener.stop.taken\", l)",
-       "if ln != nil { ln.Close() }",
-       "for conn := range conns { conn.Close() }",
-       "if started { <-l.done }",
-       "return nil"] ∧
+      "l.mu.Lock()",
+      "started := l.started",
+      "conns := l.conns",
+      "l.conns = nil",
+      "ln := l.ln",
+      "for range conns { l.stats.CxDestroyTotal.Inc() l.stats.CxActive.Dec() }",
+      "l.mu.Unlock()",
+      "verifPause(\"listener.stop.taken\", l)",
+      "if ln != nil { ln.Close() }",
+      "for conn := range conns { conn.Close() }",
+      "if started { <-l.done }",
+      "return nil"] ∧
     Gen.Listener.redisStop =
       ["p.u.Stop()",
       "p.l.Stop()",
@@ -396,13 +396,13 @@ theorem code_matches_model :
       "return nil"] ∧
     Gen.Listener.tcpStop =
       ["p.quitOnce.Do(func() { close(p.quit) })",
-       "p.hm.Stop()",
-       "p.ln.Stop()",
-       "p.wg.Wait()",
-       "return nil"] ∧
+      "p.hm.Stop()",
+      "p.ln.Stop()",
+      "p.wg.Wait()",
+      "return nil"] ∧
     Gen.Listener.upstreamStop =
       ["close(u.quit)",
-       "if atomic.LoadInt32(&u.started) == 1 { <-u.done }"] ∧
+      "if atomic.LoadInt32(&u.started) == 1 { <-u.done }"] ∧
     Gen.Listener.upstreamServe =
       ["atomic.StoreInt32(&u.started, 1)",
       "var wg sync.WaitGroup",
@@ -417,26 +417,26 @@ theorem code_matches_model :
       "close(u.done)"] ∧
     Gen.Listener.sessionLoopWrite =
       ["var ( req *rawRequest err error )",
-       "for { select { case <-s.quit: return case req = <-s.processingReqs: } select { case <-req.done: case <-s.quit: return } resp := req.Response() if err = s.enc.Encode(resp); err != nil { goto FAIL } if len(s.processingReqs) != 0 { continue } if err = s.enc.Flush(); err != nil { goto FAIL } }",
-       "FAIL: s.p.logger.Warnf(\"loop write exit: %v\", err)"] ∧
+      "for { select { case <-s.quit: return case req = <-s.processingReqs: } select { case <-req.done: default: if err = s.enc.Flush(); err != nil { goto FAIL } select { case <-req.done: case <-s.quit: return } } resp := req.Response() if err = s.enc.Encode(resp); err != nil { goto FAIL } if len(s.processingReqs) != 0 { continue } if err = s.enc.Flush(); err != nil { goto FAIL } }",
+      "FAIL: s.p.logger.Warnf(\"loop write exit: %v\", err)"] ∧
     Gen.Listener.refreshWaits =
       ["if err != nil | return",
-       "u.MakeRequestToHost",
-       "select <-u.quit | return",
-       "if resp.Type == Error | return",
-       "if resp.Type != BulkString | return",
-       "if err != nil | return"] ∧
+      "u.MakeRequestToHost",
+      "select <-u.quit | return",
+      "if resp.Type == Error | return",
+      "if resp.Type != BulkString | return",
+      "if err != nil | return"] ∧
     Gen.Listener.tcpWatcher =
       ["if len(healthyHosts) == 0 | return",
-       "if err != nil | return",
-       "defer | sconn.Close",
-       "go | select <-host.WaitRemoved() | sconn.Close",
-       "go | select <-host.WaitRemoved() | cconn.Close",
-       "go | select <-host.WaitRemoved() | return",
-       "go | select <-p.quit | sconn.Close",
-       "go | select <-p.quit | cconn.Close",
-       "go | select <-p.quit | return",
-       "go | select <-finished | return"] := by
+      "if err != nil | return",
+      "defer | sconn.Close",
+      "go | select <-host.WaitRemoved() | sconn.Close",
+      "go | select <-host.WaitRemoved() | cconn.Close",
+      "go | select <-host.WaitRemoved() | return",
+      "go | select <-p.quit | sconn.Close",
+      "go | select <-p.quit | cconn.Close",
+      "go | select <-p.quit | return",
+      "go | select <-finished | return"] := by
   refine ⟨rfl, rfl, rfl, rfl, rfl, rfl, rfl, rfl, rfl, rfl, rfl, rfl, rfl, rfl, rfl⟩
 
 /-! ### added: completion under every schedule / interference -/
@@ -528,7 +528,7 @@ theorem session_loops_match_model :
       ["for { v, err := s.dec.Decode() if err != nil { if err != io.EOF { s.p.logger.Warnf(\"loop read exit: %v\", err) } return } req := newRawRequest(v) s.p.handleRequest(req) select { case s.processingReqs <- req: case <-s.quit: return } }"] ∧
     Gen.Session.loopWrite =
       ["var ( req *rawRequest err error )",
-      "for { select { case <-s.quit: return case req = <-s.processingReqs: } select { case <-req.done: case <-s.quit: return } resp := req.Response() if err = s.enc.Encode(resp); err != nil { goto FAIL } if len(s.processingReqs) != 0 { continue } if err = s.enc.Flush(); err != nil { goto FAIL } }",
+      "for { select { case <-s.quit: return case req = <-s.processingReqs: } select { case <-req.done: default: if err = s.enc.Flush(); err != nil { goto FAIL } select { case <-req.done: case <-s.quit: return } } resp := req.Response() if err = s.enc.Encode(resp); err != nil { goto FAIL } if len(s.processingReqs) != 0 { continue } if err = s.enc.Flush(); err != nil { goto FAIL } }",
       "FAIL: s.p.logger.Warnf(\"loop write exit: %v\", err)"] := by
   refine ⟨rfl, rfl, rfl⟩
 
